@@ -54,7 +54,7 @@ Proof.
   destruct (fold_max_like f64_max max_like_max (map (get c) rest) (get c q0) N0 Nr) as (I2 & _ & A2).
   cbv zeta in *. rewrite E1, E2. change (get c q0 :: map (get c) rest) with (map (get c) (q0 :: rest)) in *.
   split; [exact I1|]. split; [apply Forall_map_iff in A1; exact A1|]. split; [exact I2|].
-  apply (Forall_map_iff (fun x => f64_le x _ = true)) in A2. exact A2.
+  rewrite Forall_forall in *. intros v Hv. apply A2. apply in_map. exact Hv.
 Qed.
 
 Lemma box_from_points_exact d ps b : box_from_points d ps = Ok b -> pts_nn d ps -> box_exact d b ps.
